@@ -28,6 +28,10 @@ def generate(module, cfg_template, subst, work, name, workers=1, tags=("SCRIPT",
     meta = dest + ".meta"
     if os.path.exists(dest) and os.path.exists(meta):
         m = json.load(open(meta))
+        try:
+            os.utime(dest)          # mark as in use (pruning below goes by age)
+        except OSError:
+            pass
         return dest, m["count"], m["stats"]
     cfg = vlib.write_cfg(cfg_template, os.path.join(work, name + ".cfg"), **subst)
     rc, out = vlib.tlc(module, cfg, work, workers=workers, timeout=timeout, extra=extra, heap=heap)
@@ -42,7 +46,9 @@ def generate(module, cfg_template, subst, work, name, workers=1, tags=("SCRIPT",
     json.dump({"count": n, "stats": st}, open(meta, "w"))
     # older generations of the same family (other spec hashes) are dead weight
     for old in glob.glob(os.path.join(cache_dir(), "%s-*.ndjson" % name)):
-        if old != dest and re.fullmatch(re.escape(name) + r"-[0-9a-f]{20}\.ndjson", os.path.basename(old)):
+        # (only what has not been used for hours: another tier, or a check running at the same time, may be reading its own)
+        if old != dest and re.fullmatch(re.escape(name) + r"-[0-9a-f]{20}\.ndjson", os.path.basename(old)) \
+                and time.time() - os.path.getmtime(old) > 4 * 3600:
             for f in (old, old + ".meta"):
                 try:
                     os.unlink(f)
